@@ -207,6 +207,31 @@ def check_pair(prop, pair, tier, keep):
             return res
         agb = rgb
         final = rgb
+    if pair.get("stub_bodies"):
+        # assumed bodies for file-static callees (listed as assumptions like a replaced contract): the real body is dropped and a body
+        # from stubs/bodies/*.c is linked in.  Used where the callee returns a pointer: a contract result that is only *assumed* equal to
+        # NULL / a fresh object has no provenance in CBMC and every later dereference splits over all objects.
+        sb = pair["stub_bodies"]
+        rc0, out0, err0, _ = run(["goto-instrument", "--list-goto-functions", agb], 120, 8)
+        have = set(m.group(1) for m in re.finditer(r"^(\S+) /\* [^*]*\*/$", out0, re.M) if "body not available" not in m.group(0))
+        missing = [f for f in sb["remove"] if f not in have]
+        if missing:
+            res.update(status="error", reason="stub_bodies: %s not defined by the translation unit (renamed?)" % ",".join(missing))
+            res["wall_s"] = time.time() - t0
+            return res
+        r0 = os.path.join(d, "sb0.gb"); sgb = os.path.join(d, "sb1.gb"); lgb = os.path.join(d, "sb.gb")
+        cmds = [["goto-instrument"] + sum([["--remove-function-body", f] for f in sb["remove"]], []) + [agb, r0],
+                ["goto-cc", "-std=gnu11", "-DVC_CBMC", "-c"] + flags + inc + [os.path.join(VERIF, sb["src"]), "-o", sgb],
+                ["goto-cc", r0, sgb, "--function", entry, "-o", lgb]]
+        for c in cmds:
+            res["cmds"].append(" ".join(c))
+            rc, out, err, _ = run(c, 300, 8)
+            if rc != 0:
+                res.update(status="error", reason="stub_bodies step failed: " + (err or out)[-400:])
+                res["wall_s"] = time.time() - t0
+                return res
+        agb = lgb
+        final = lgb
     if mode == "dfcc":
         bgb = os.path.join(d, "b.gb")
         cmd = ["goto-instrument"]
